@@ -34,7 +34,7 @@ try:
     touched = re.findall(r'^\+\+\+ b/(\S+)', open(os.path.join(dst, 'patch.diff')).read(), re.M)
     res['files_touched'] = touched
     res['only_library_sources'] = all(t.startswith('src/cocls/') for t in touched)
-    rc, out, t = sh('cmake -G Ninja -S %s -B %s/_build >/dev/null && cmake --build %s/_build -j6 2>&1 | tail -3 && ctest --test-dir %s/_build -j6 --timeout 900 2>&1 | tail -15'
+    rc, out, t = sh('cmake -G Ninja -S %s -B %s/_build >/dev/null && cmake --build %s/_build -j4 2>&1 | tail -3 && ctest --test-dir %s/_build -j4 --timeout 900 2>&1 | tail -15'
                     % (patched, patched, patched, patched))
     m = re.search(r'(\d+)% tests passed, (\d+) tests failed out of (\d+)', out)
     res['testsuite_attempts'] = 1
